@@ -589,6 +589,14 @@ class Evaluator:
                 raise AnalysisError(f"absint: super().{attr} not found at {where}")
             return FuncVal(ms[0], obj.self_val)
         if isinstance(obj, (list, dict, tuple, frozenset, str, ModelDict)):
+            known = {"dict": ("keys", "items", "values", "get", "pop", "setdefault", "update", "copy", "clear"),
+                     "list": ("append", "extend", "insert", "remove", "index", "count", "pop", "copy", "clear", "reverse", "sort"),
+                     "set": ("add", "update", "discard", "remove", "copy", "union", "pop", "clear", "difference", "intersection"),
+                     "tuple": ("index", "count"), "frozenset": ("union", "copy"),
+                     "str": ("join", "format", "split", "strip", "lower", "upper", "startswith", "endswith", "replace")}
+            kind = "set" if isinstance(obj, OSet) else ("dict" if isinstance(obj, (dict, ModelDict)) else type(obj).__name__)
+            if attr not in known.get(kind, ()):
+                raise PyRaise("AttributeError", f"{where} ('{kind}' object has no attribute '{attr}')")
             return BoundBuiltin(obj, attr)
         raise AnalysisError(f"absint: attribute .{attr} of {show(obj)} at {where}")
 
